@@ -82,8 +82,9 @@ def custom(ctx):
     cases, stats = ctx.run_harness(["c08", "--tier", ctx.tier, "--seed", str(ctx.seed)])
     ctx.stats.extend(stats)
     account(cases)
-    ctx.extra["model_comparison"] = ("C08.lex, C08.cond and C08.defscan requests are compared with the Lean model (TokenStream bookkeeping, "
-                                     "ConditionChain, Macro::parse + apply_macros with locations); C08.compile requests are the property's own oracle on the real compiler "
+    ctx.extra["model_comparison"] = ("C08.lex, C08.cond, C08.defscan and C08.textscan requests are compared with the Lean model (TokenStream bookkeeping, "
+                                     "ConditionChain over trees of included files, Macro::parse + apply_macros with locations, with and without apply_defined); "
+                                     "C08.compile requests are the property's own oracle on the real compiler "
                                      "(worker survival, rendered diagnostics, time budget) and have no model prediction")
 
 
@@ -95,7 +96,7 @@ SPEC = {
         "panic_sites_classified", "parser_loops_as_modelled", "list_uses_reviewed", "parse_list_progress",
         "parse_list_fuel_irrelevant", "parse_multiple_progress", "parse_multiple_diverges_without_progress",
         "parse_optional_total", "root_loop_progress", "lex_shape_as_modelled", "lex_progress",
-        "cond_shape_as_modelled", "cond_chain_total", "cond_depth_bounded", "macro_guard_as_modelled",
+        "cond_shape_as_modelled", "cond_chain_total", "cond_include_isolated", "cond_depth_bounded", "macro_guard_as_modelled",
         "stage_errors_rendered", "arith_sites_classified", "defined_shape_as_modelled", "defined_location_safe",
         "defined_location_needs_plain_rescan", "defined_indices_in_range", "scan_output_has_no_concat"]],
     "harness": "c08",
@@ -117,15 +118,21 @@ SPEC = {
             "quick) with the pipeline mode {all, named, no-pipeline}, the layout-validation flag and an optional command-line "
             "define rotating (quick) or crossed (thorough); worker death, panic, timeout, an empty diagnostic or an exceeded "
             "budget is a failure, keyed by panic site or by (signal, stage), minimised over files, defines, lines and bytes; "
-            "model-compared side streams: C08.lex (TokenStream bookkeeping), C08.cond (ConditionChain), C08.defscan (Macro::parse "
-            "+ apply_macros with apply_defined on the real lexer's located tokens); non-trivial = the input compiled through every stage",
+            "model-compared side streams: C08.lex (TokenStream bookkeeping), C08.cond (ConditionChain: every directive sequence up to "
+            "length 4, random walks, and random trees of in-memory files included up to 3 deep, with second #else / #elif after "
+            "#else, blocks that cross a file boundary, directive lines that start with a number), C08.defscan (Macro::parse + "
+            "apply_macros with apply_defined on the real lexer's located tokens) and C08.textscan (the same definitions used from "
+            "ordinary text whose invocations are broken over several lines); non-trivial = the input compiled through every stage",
     "level_text": "Proof of the logic, test of the runtime.  Proved for all inputs: every explicit panic site in the current sources "
                   "is a reviewed, classified one, and so is every unchecked + - *, `as` cast, index and slice in the preprocessor / "
                   "lexer core (two regenerated inventories; a new site or changed operands break the obligation); the parser's list "
                   "combinators, the root-definition loop and TokenStream::read_to_end terminate within |input|+1 (resp. +2) "
                   "iterations for every element parser / single-token lexer that consumes on success — and do not terminate "
-                  "otherwise (witness); read_to_end can never trip the end-of-stream assert; the condition chain is total and its "
-                  "three diagnostics depend on #if/#endif depth alone; the location subtraction of the `defined` operation cannot "
+                  "otherwise (witness); read_to_end can never trip the end-of-stream assert; the condition chain is total for every "
+                  "tree of included files: its unchecked slice self.0[self.1..] is always in range, an included file leaves the "
+                  "blocks of its includers untouched, and in a file without #include which of the diagnostics (unmatched #else / "
+                  "#endif, #else or #elif after #else, unfinished block) is reported depends on the nesting shape alone, never on "
+                  "the condition values; the location subtraction of the `defined` operation cannot "
                   "overflow for any macro table, any ## oracle and any command line of one lexer run, because the two recursive "
                   "scans run without apply_defined (flags re-extracted from the source; with the caller's flag there is a proved "
                   "counterexample), its two index computations stay in range, and a completed scan leaves no Concat token.  "
@@ -136,18 +143,22 @@ SPEC = {
         "Lean 4.33 kernel; axioms propext / Classical.choice / Quot.sound only",
         "tools/gens/c08.py: textual inventory of panic!/todo!/unimplemented!/unreachable!/assert*/unwrap/expect sites outside "
         "#[test]/#[cfg(test)] items, and regex facts about parse_list_base, parse_optional, parse_internal, TokenStream, "
-        "ConditionChain, the macro_disabled bracket and compile()'s error arms — re-run on /repo's working tree every time",
+        "ConditionChain (20 facts incl. the per-file save / set / check / restore of its second field, which is written nowhere "
+        "else), the macro_disabled bracket and compile()'s error arms — re-run on /repo's working tree every time",
+        "Model/Progress.lean mirrors ConditionChain::{push, switch, pop, is_active} and the #include bracket of "
+        "preprocess_included_file by hand (the include depth limit, file loading and #pragma once are not modelled); tied by the "
+        "facts above and by the C08.cond correspondence on trees of in-memory files",
         "Lemmas/PanicClasses.lean: the class and reason of each site is a reviewed reading of the code (with targeted probes of the "
         "real compiler), not a theorem about the Rust code; implicit panics (indexing, arithmetic overflow, RefCell, slicing, "
         "stack exhaustion) outside preprocess.rs / lexer.rs / condition_parser.rs / location.rs have no inventory and are covered "
         "by the supervised run only",
         "tools/gens/_c08_arith.py: operator-level reading of the four core files (binary + - * and their compound forms, `as` "
         "casts to numeric types, x[..] after an operand; method calls such as split_at / wrapping_* are not sites); "
-        "Lemmas/ArithClasses.lean: class and invariant of each of the 162 sites is a reviewed reading (7 point at a Lean theorem, "
+        "Lemmas/ArithClasses.lean: class and invariant of each of the 163 sites is a reviewed reading (8 point at a Lean theorem, "
         "12 are `resource-bound`: they overflow only with 4 GiB of registered text or usize::MAX elements)",
         "Model/DefinedLoc.lean mirrors Macro::parse, split_macro_args, find_single_macro, apply_single_macro by hand; it is tied "
-        "to the code by 16 regex facts + the two re-extracted rescan flags (defined_shape_as_modelled) and by the C08.defscan "
-        "correspondence on the real lexer's tokens; the ## operation is an abstract oracle (assumed not to produce Token::Concat, "
+        "to the code by 22 regex facts + the two re-extracted rescan flags (defined_shape_as_modelled) and by the C08.defscan / "
+        "C08.textscan correspondence on the real lexer's tokens; the ## operation is an abstract oracle (assumed not to produce Token::Concat, "
         "which the lexer cannot); command-line tokens are assumed to come from one lexer run (monotone locations: C10 spans_tile, "
         "C08.lex oracle)",
         "the progress hypotheses of the loop theorems (an element parser consumes a token on success; the single-token lexer "
